@@ -1,4 +1,458 @@
-#![allow(unused)]
+//! C05 (uncompress), C06 (compress), C07 (rename), C08/C09/C10 (mutations keep the object coherent / exact effect / failure
+//! atomicity), C11 (delete while iterating) replayed on the real crate against a reference model of the decoded message.
+use crate::names::ref_name_to_wire;
 use crate::util::*;
-pub fn replay(_p: &str, _a: &[&str]) -> Result<(), String> { Err("not implemented".into()) }
-pub fn gen(_p: &str, _r: &mut Rng, _f: &str) -> Vec<String> { vec![] }
+use crate::wire::{self, Msg, Rec};
+use dnssector::*;
+use std::net::IpAddr;
+
+// ---------------------------------------------------------------------------------------------- decoded message (abstract view)
+#[derive(Clone, Debug, PartialEq)]
+pub struct MRec { pub name: Vec<u8>, pub rtype: u16, pub class: u16, pub ttl: u32, pub rdata: Vec<u8> }   // rdata with names expanded
+#[derive(Clone, Debug, PartialEq)]
+pub struct MMsg { pub hdr: Vec<u8>, pub q: Option<(Vec<u8>, u16, u16)>, pub secs: [Vec<MRec>; 3] }
+
+fn expand_rdata(p: &[u8], r: &Rec) -> Vec<u8> {
+    let d = r.name_end + 10;
+    match r.rtype {
+        2 | 5 | 12 => r.rdata_names[0].clone(),
+        15 => { let mut v = p[d..d + 2].to_vec(); v.extend(&r.rdata_names[0]); v }
+        6 => { let mut v = r.rdata_names[0].clone(); v.extend(&r.rdata_names[1]); v.extend(&p[r.end - 20..r.end]); v }
+        _ => p[d..r.end].to_vec(),
+    }
+}
+pub fn decode(p: &[u8]) -> Option<MMsg> {
+    let m = wire::parse_ref(p)?;
+    let mut secs: [Vec<MRec>; 3] = [vec![], vec![], vec![]];
+    for r in &m.recs {
+        secs[(r.section - 1) as usize].push(MRec { name: r.name.clone(), rtype: r.rtype, class: r.class, ttl: r.ttl, rdata: expand_rdata(p, r) });
+    }
+    let mut hdr = p[..4].to_vec();
+    Some(MMsg { hdr, q: Some((m.qname.clone(), m.qtype, m.qclass)), secs })
+}
+/// structural decode that also accepts packets without a question / with answers in a query (policy clauses of C02 dropped)
+pub fn decode_struct(p: &[u8]) -> Option<MMsg> {
+    if p.len() < 12 { return None; }
+    let qd = be16(p, 4);
+    if qd > 1 { return None; }
+    let mut off = 12;
+    let mut q = None;
+    if qd == 1 { let (e, n) = wire::name_walk(p, 12)?; if e + 4 > p.len() { return None; } q = Some((n, be16(p, e), be16(p, e + 2))); off = e + 4; }
+    let mut secs: [Vec<MRec>; 3] = [vec![], vec![], vec![]];
+    let mut seen = false;
+    for s in 0..3 {
+        for _ in 0..be16(p, 6 + 2 * s) {
+            let r = wire::parse_rr(p, off, (s + 1) as u8, seen)?;
+            if r.rtype == 41 { seen = true; }
+            off = r.end;
+            secs[s].push(MRec { name: r.name.clone(), rtype: r.rtype, class: r.class, ttl: r.ttl, rdata: expand_rdata(p, &r) });
+        }
+    }
+    if off != p.len() { return None; }
+    Some(MMsg { hdr: p[..4].to_vec(), q, secs })
+}
+fn lower_names(m: &MMsg) -> MMsg {
+    // names compared case-insensitively: lower-case owner names and the names inside understood rdata
+    let lw = |v: &Vec<u8>| -> Vec<u8> { v.iter().map(|c| c.to_ascii_lowercase()).collect() };
+    let mut m = m.clone();
+    if let Some(q) = &mut m.q { q.0 = lw(&q.0); }
+    for s in m.secs.iter_mut() { for r in s.iter_mut() { r.name = lw(&r.name);
+        match r.rtype { 2 | 5 | 12 => r.rdata = lw(&r.rdata),
+                        15 => { let t = lw(&r.rdata[2..].to_vec()); r.rdata.truncate(2); r.rdata.extend(t); }
+                        6 => { let n = r.rdata.len() - 20; let t = lw(&r.rdata[..n].to_vec()); let tail = r.rdata[n..].to_vec(); r.rdata = t; r.rdata.extend(tail); }
+                        _ => {} } } }
+    m
+}
+/// pointer-free re-encoding of a decoded message (the specification of uncompress)
+pub fn encode(m: &MMsg) -> Vec<u8> {
+    let mut p = m.hdr.clone();
+    put16(&mut p, if m.q.is_some() { 1 } else { 0 });
+    for s in 0..3 { put16(&mut p, m.secs[s].len() as u16); }
+    if let Some(q) = &m.q { p.extend(&q.0); put16(&mut p, q.1); put16(&mut p, q.2); }
+    for s in 0..3 { for r in &m.secs[s] { p.extend(&r.name); put16(&mut p, r.rtype); put16(&mut p, r.class); put32(&mut p, r.ttl); put16(&mut p, r.rdata.len() as u16); p.extend(&r.rdata); } }
+    p
+}
+
+/// C08: the object's own view equals a fresh parse of its bytes
+fn coherent(pp: &mut ParsedPacket, strict: bool) -> Result<(), String> {
+    let bytes = pp.packet.clone().ok_or("packet is None")?;
+    let fresh = DNSSector::new(bytes.clone()).unwrap().parse();
+    let fresh = match fresh {
+        Ok(f) => f,
+        Err(e) => {
+            if strict { return Err(format!("bytes are not accepted by the parser: {} ({})", e, hex(&bytes))); }
+            // policy-level exceptions (no question / answers in a query): fall back to the structural decode
+            if decode_struct(&bytes).is_none() { return Err(format!("bytes are not even structurally well-formed: {} ({})", e, hex(&bytes))); }
+            return coherent_struct(pp, &bytes);
+        }
+    };
+    if pp.offset_question != fresh.offset_question || pp.offset_answers != fresh.offset_answers || pp.offset_nameservers != fresh.offset_nameservers
+        || pp.offset_additional != fresh.offset_additional { return Err(format!("section offsets {:?} {:?} {:?} {:?} differ from a fresh parse {:?} {:?} {:?} {:?}",
+            pp.offset_question, pp.offset_answers, pp.offset_nameservers, pp.offset_additional, fresh.offset_question, fresh.offset_answers, fresh.offset_nameservers, fresh.offset_additional)); }
+    if pp.offset_edns != fresh.offset_edns { return Err(format!("offset_edns {:?} vs fresh {:?}", pp.offset_edns, fresh.offset_edns)); }
+    if pp.edns_count != fresh.edns_count || pp.ext_rcode != fresh.ext_rcode || pp.edns_version != fresh.edns_version || pp.ext_flags != fresh.ext_flags {
+        return Err("EDNS summary differs from a fresh parse".into()); }
+    if !pp.maybe_compressed && bytes[12..].iter().enumerate().any(|(_, _)| false) { }
+    // the cached question
+    let m = wire::parse_ref(&bytes).ok_or("reference rejects accepted bytes")?;
+    if let Some(q) = pp.question_raw0() { if q.0 != &m.qname[..] || q.1 != m.qtype || q.2 != m.qclass { return Err("cached question is stale".into()); } } else { return Err("question_raw0 none".into()); }
+    if !pp.maybe_compressed {
+        // "the flag saying the bytes may contain pointers": when it says no, there must be none in any understood name
+        let u = Compress::uncompress(&bytes).map_err(|e| e.to_string())?;
+        if u != bytes { return Err("maybe_compressed is false but the bytes are not pointer-free".into()); }
+    }
+    Ok(())
+}
+fn coherent_struct(pp: &mut ParsedPacket, bytes: &[u8]) -> Result<(), String> {
+    let qd = be16(bytes, 4);
+    let mut off = 12;
+    if qd == 1 { off = wire::name_walk(bytes, 12).unwrap().0 + 4; if pp.offset_question != Some(12) { return Err("offset_question".into()); } } else if pp.offset_question.is_some() { return Err("offset_question should be None".into()); }
+    let want = |n: u16, off: usize| if n > 0 { Some(off) } else { None };
+    let mut starts = [None; 3];
+    let mut seen = false;
+    for s in 0..3 { starts[s] = want(be16(bytes, 6 + 2 * s), off); for _ in 0..be16(bytes, 6 + 2 * s) { let r = wire::parse_rr(bytes, off, (s + 1) as u8, seen).unwrap(); if r.rtype == 41 { seen = true; } off = r.end; } }
+    if pp.offset_answers != starts[0] || pp.offset_nameservers != starts[1] || pp.offset_additional != starts[2] { return Err("section offsets differ from the structural decode".into()); }
+    Ok(())
+}
+
+// ---------------------------------------------------------------------------------------------- operations
+#[derive(Clone, Debug)]
+enum Op {
+    SetFlags(u32), SetTid(u16), SetRcode(u8), SetOpcode(u8), SetResponse(bool),
+    SetName(u8, usize, Vec<u8>),       // section (0 question, 1..3), record index, new raw name
+    Delete(u8, usize),
+    SetTtl(u8, usize, u32),
+    SetIp(u8, usize, Vec<u8>),
+    Insert(u8, String),                // section, record text
+    Recompute,
+    Uncompress(u8, usize),             // through an iterator positioned at record index
+    Rename(Vec<u8>, Vec<u8>, bool),
+    WalkDelete(u8, u64),               // C11: walk a section deleting the records whose bit is set
+}
+fn op_to_str(o: &Op) -> String {
+    match o {
+        Op::SetFlags(v) => format!("flags:{}", v), Op::SetTid(v) => format!("tid:{}", v), Op::SetRcode(v) => format!("rcode:{}", v),
+        Op::SetOpcode(v) => format!("opcode:{}", v), Op::SetResponse(v) => format!("resp:{}", *v as u8),
+        Op::SetName(s, k, n) => format!("name:{}:{}:{}", s, k, hex(n)), Op::Delete(s, k) => format!("del:{}:{}", s, k),
+        Op::SetTtl(s, k, v) => format!("ttl:{}:{}:{}", s, k, v), Op::SetIp(s, k, ip) => format!("ip:{}:{}:{}", s, k, hex(ip)),
+        Op::Insert(s, t) => format!("ins:{}:{}", s, hex(t.as_bytes())), Op::Recompute => "recompute".into(),
+        Op::Uncompress(s, k) => format!("unc:{}:{}", s, k), Op::Rename(t, s, x) => format!("ren:{}:{}:{}", hex(t), hex(s), *x as u8),
+        Op::WalkDelete(s, m) => format!("wdel:{}:{}", s, m),
+    }
+}
+fn op_from_str(s: &str) -> Result<Op, String> {
+    let f: Vec<&str> = s.split(':').collect();
+    let n = |i: usize| -> Result<u64, String> { f.get(i).ok_or("missing field")?.parse::<u64>().map_err(|e| e.to_string()) };
+    Ok(match f[0] {
+        "flags" => Op::SetFlags(n(1)? as u32), "tid" => Op::SetTid(n(1)? as u16), "rcode" => Op::SetRcode(n(1)? as u8), "opcode" => Op::SetOpcode(n(1)? as u8),
+        "resp" => Op::SetResponse(n(1)? != 0), "name" => Op::SetName(n(1)? as u8, n(2)? as usize, unhex(f[3])?), "del" => Op::Delete(n(1)? as u8, n(2)? as usize),
+        "ttl" => Op::SetTtl(n(1)? as u8, n(2)? as usize, n(3)? as u32), "ip" => Op::SetIp(n(1)? as u8, n(2)? as usize, unhex(f[3])?),
+        "ins" => Op::Insert(n(1)? as u8, String::from_utf8(unhex(f[2])?).map_err(|e| e.to_string())?), "recompute" => Op::Recompute,
+        "unc" => Op::Uncompress(n(1)? as u8, n(2)? as usize), "ren" => Op::Rename(unhex(f[1])?, unhex(f[2])?, n(3)? != 0),
+        "wdel" => Op::WalkDelete(n(1)? as u8, n(2)?),
+        _ => return Err(format!("unknown op {}", s)),
+    })
+}
+fn sec_of(s: u8) -> Section { match s { 0 => Section::Question, 1 => Section::Answer, 2 => Section::NameServers, _ => Section::Additional } }
+
+/// model of replace on one expanded name (C07)
+fn model_replace(name: &[u8], target: &[u8], source: &[u8], suffix: bool) -> Result<Option<Vec<u8>>, ()> {
+    if name.len() < source.len() || (!suffix && name.len() != source.len()) { return Ok(None); }
+    let off = name.len() - source.len();
+    // label boundary?
+    let mut i = 0; let mut boundary = false;
+    while i < name.len() { if i == off { boundary = true; break; } if name[i] == 0 { break; } i += name[i] as usize + 1; }
+    if !boundary { return Ok(None); }
+    if !name[off..].eq_ignore_ascii_case(source) { return Ok(None); }
+    if off + target.len() > 255 { return Err(()); }
+    let mut v = name[..off].to_vec(); v.extend_from_slice(target); Ok(Some(v))
+}
+fn model_rename(m: &MMsg, t: &[u8], s: &[u8], suffix: bool) -> Result<MMsg, ()> {
+    let mut m = m.clone();
+    let rn = |n: &Vec<u8>| -> Result<Vec<u8>, ()> { Ok(model_replace(n, t, s, suffix)?.unwrap_or_else(|| n.clone())) };
+    if let Some(q) = &mut m.q { q.0 = rn(&q.0)?; }
+    for sec in m.secs.iter_mut() { for r in sec.iter_mut() {
+        r.name = rn(&r.name)?;
+        match r.rtype {
+            2 | 5 | 12 => r.rdata = rn(&r.rdata)?,
+            15 => { let x = rn(&r.rdata[2..].to_vec())?; r.rdata.truncate(2); r.rdata.extend(x); }
+            6 => { let n1 = wire::plain_walk(&r.rdata, 0).ok_or(())?; let n2 = wire::plain_walk(&r.rdata, n1).ok_or(())?;
+                   let a = rn(&r.rdata[..n1].to_vec())?; let b = rn(&r.rdata[n1..n2].to_vec())?; let tail = r.rdata[n2..].to_vec(); r.rdata = a; r.rdata.extend(b); r.rdata.extend(tail); }
+            _ => {}
+        } } }
+    Ok(m)
+}
+
+/// iterate to record `k` (0-based, OPT included for the additional section) of a response section and run `f` on the item
+fn with_item<R>(pp: &mut ParsedPacket, s: u8, k: usize, f: impl FnOnce(&mut ResponseIterator<'_>) -> R) -> Option<R> {
+    let mut it = match s { 1 => pp.into_iter_answer(), 2 => pp.into_iter_nameservers(), _ => pp.into_iter_additional_including_opt() };
+    let mut i = 0;
+    while let Some(mut item) = it {
+        if i == k { return Some(f(&mut item)); }
+        i += 1;
+        it = item.next_including_opt();
+    }
+    None
+}
+
+struct Outcome { model: MMsg, failed: bool }
+
+/// applies one operation to the real object and to the model; returns Err(description) on a property violation
+fn apply(pp: &mut ParsedPacket, model: &MMsg, op: &Op, prop: &str) -> Result<Outcome, String> {
+    let mut m = model.clone();
+    let before_bytes = pp.packet.clone().unwrap();
+    let mut failed = false;
+    match op {
+        Op::SetFlags(v) => { pp.set_flags(*v); let w = be16(&m.hdr, 2); let nw = (w & 0x780f) | ((*v as u16) & 0x87f0); m.hdr[2] = (nw >> 8) as u8; m.hdr[3] = nw as u8; }
+        Op::SetTid(v) => { pp.set_tid(*v); m.hdr[0] = (*v >> 8) as u8; m.hdr[1] = *v as u8; }
+        Op::SetRcode(v) => { pp.set_rcode(*v); m.hdr[3] = (m.hdr[3] & 0xf0) | (*v & 0x0f); }
+        Op::SetOpcode(v) => { pp.set_opcode(*v); m.hdr[2] = (m.hdr[2] & 0x87) | ((*v & 0x0f) << 3); }
+        Op::SetResponse(v) => { pp.set_response(*v); m.hdr[2] = (m.hdr[2] & 0x7f) | if *v { 0x80 } else { 0 }; }
+        Op::SetName(s, k, n) => {
+            let valid = wire::plain_walk(n, 0).is_some();
+            let r = if *s == 0 {
+                let mut it = pp.into_iter_question();
+                match it.as_mut() { Some(item) => Some(item.set_raw_name(n).map(|_| { let t = item.rr_type(); (item.name(), t) })), None => None }
+            } else {
+                with_item(pp, *s, *k, |item| { let before_next: Option<Vec<u8>> = None; let _ = before_next;
+                    item.set_raw_name(n).map(|_| (item.name(), item.rr_type())) })
+            };
+            match r {
+                None => return Ok(Outcome { model: m, failed: false }),    // no such record: nothing happened
+                Some(Ok((readback, rtype))) => {
+                    if !valid { return Err("set_raw_name accepted an invalid name".into()); }
+                    let nn = n[..wire::plain_walk(n, 0).unwrap()].to_vec();
+                    if *s == 0 { if let Some(q) = &mut m.q { q.0 = nn.clone(); } } else { let rec = &mut m.secs[(*s - 1) as usize][*k]; rec.name = nn.clone(); if rec.rtype != rtype { return Err("iterator no longer designates the record after set_raw_name".into()); } }
+                    if !nn.iter().any(|&c| wire::bad_char(c) && c != 0) || true { if readback != wire::to_text(&nn) { return Err(format!("name reads back as {:?}", String::from_utf8_lossy(&readback))); } }
+                }
+                Some(Err(_)) => { failed = true; if valid { return Err("set_raw_name rejected a valid name".into()); } }
+            }
+        }
+        Op::Delete(s, k) => {
+            let r = if *s == 0 { let mut it = pp.into_iter_question(); match it.as_mut() { Some(item) => Some(item.delete()), None => None } }
+                    else { with_item(pp, *s, *k, |item| { let r = item.delete(); if r.is_ok() { if item.delete().is_ok() { return Err(anyhow_str("second delete through the same cursor succeeded")); } } r.map_err(|e| e) }) };
+            match r { None => {}, Some(Ok(())) => { if *s == 0 { m.q = None; } else { m.secs[(*s - 1) as usize].remove(*k); } }, Some(Err(e)) => { if e.to_string().contains("second delete") { return Err(e.to_string()); } failed = true; } }
+        }
+        Op::SetTtl(s, k, v) => { if with_item(pp, *s, *k, |item| item.set_rr_ttl(*v)).is_some() { m.secs[(*s - 1) as usize][*k].ttl = *v; } }
+        Op::SetIp(s, k, ip) => {
+            let addr: IpAddr = if ip.len() == 4 { IpAddr::from([ip[0], ip[1], ip[2], ip[3]]) } else { let mut b = [0u8; 16]; b.copy_from_slice(&ip[..16]); IpAddr::from(b) };
+            if let Some(r) = with_item(pp, *s, *k, |item| item.set_rr_ip(&addr)) {
+                let rec = &mut m.secs[(*s - 1) as usize][*k];
+                let fits = (rec.rtype == 1 && ip.len() == 4) || (rec.rtype == 28 && ip.len() == 16);
+                match r { Ok(()) => { if !fits { return Err("set_rr_ip accepted a wrong family/type".into()); } rec.rdata = ip.clone(); }, Err(_) => { failed = true; if fits { return Err("set_rr_ip rejected a matching address".into()); } } }
+            }
+        }
+        Op::Insert(s, text) => {
+            let rr = match r#gen::RR::from_string(text) { Ok(rr) => rr, Err(_) => return Ok(Outcome { model: m, failed: false }) };
+            let rrm = { // decode the record through a scratch packet
+                let mut sp: Vec<u8> = vec![0, 0, 0x80, 0, 0, 1, 0, 1, 0, 0, 0, 0, 1, b'q', 0, 0, 1, 0, 1]; sp.extend(&rr.packet);
+                let d = decode(&sp).ok_or("synthesised record does not decode")?; d.secs[0][0].clone() };
+            let r = pp.insert_rr(sec_of(*s), rr);
+            let after_len = pp.packet.as_ref().unwrap().len();
+            match r {
+                Ok(()) => { if after_len > 8192 { return Err(format!("insert_rr produced a packet of {} bytes (> 8192)", after_len)); } m.secs[(*s - 1) as usize].push(rrm); }
+                Err(_) => { failed = true; }
+            }
+        }
+        Op::Recompute => { if pp.recompute().is_err() { failed = true; } }
+        Op::Uncompress(s, k) => {
+            let r = with_item(pp, *s, *k, |item| { let t = item.rr_type(); let n = item.name(); item.uncompress().map(|_| (t == item.rr_type() && n == item.name(), { let mut v: Vec<(u16, Vec<u8>)> = vec![]; v })) });
+            if let Some(r) = r { match r { Ok((same, _)) => { if !same { return Err("iterator designates another record after uncompress()".into()); } }, Err(_) => failed = true } }
+        }
+        Op::Rename(t, s, x) => {
+            let r = pp.rename_with_raw_names(t, s, *x);
+            match (r, model_rename(&m, t, s, *x)) {
+                (Ok(()), Ok(mm)) => { m = mm; }
+                (Ok(()), Err(())) => return Err("rename produced a packet although a rewritten name exceeds 255 bytes".into()),
+                (Err(e), Ok(_)) => return Err(format!("rename failed although every rewritten name fits: {}", e)),
+                (Err(_), Err(())) => { failed = true; }
+            }
+        }
+        Op::WalkDelete(s, mask) => {
+            let before = m.secs[(*s - 1) as usize].clone();
+            let mut survivors = vec![];
+            let mut yielded_after_delete = false;
+            let mut it = match s { 1 => pp.into_iter_answer(), 2 => pp.into_iter_nameservers(), _ => pp.into_iter_additional() };
+            let mut steps = 0;
+            // index into `before` of the record under the cursor: found by content (records are made distinct by the generator's TTLs)
+            let mut deleted: Vec<bool> = vec![false; before.len()];
+            while let Some(mut item) = it {
+                steps += 1;
+                if steps > 10 * (before.len() + 2) { return Err("walk with deletions does not terminate".into()); }
+                let ttl = item.rr_ttl(); let ty = item.rr_type();
+                let idx = before.iter().position(|r| r.ttl == ttl && r.rtype == ty);
+                let idx = match idx { Some(i) => i, None => return Err("walk yielded a record that is not in the section".into()) };
+                if deleted[idx] { yielded_after_delete = true; }
+                if (mask >> idx) & 1 == 1 && !deleted[idx] {
+                    if let Err(e) = item.delete() { return Err(format!("delete failed: {}", e)); }
+                    match item.delete() { Err(_) => {}, Ok(()) => return Err("second delete through the same cursor succeeded".into()) }
+                    deleted[idx] = true;
+                }
+                it = item.next();
+            }
+            if yielded_after_delete { return Err("a deleted record was yielded again".into()); }
+            for (i, r) in before.iter().enumerate() { if !deleted[i] || r.rtype == 41 && (mask >> i) & 1 == 1 && false { if !deleted[i] { survivors.push(r.clone()); } } }
+            m.secs[(*s - 1) as usize] = survivors;
+        }
+    }
+    let _ = (before_bytes, prop);
+    Ok(Outcome { model: m, failed })
+}
+fn anyhow_str(s: &str) -> Error { anyhow!(s.to_string()) }
+
+fn msg_eq(a: &MMsg, b: &MMsg) -> bool { lower_names(a) == lower_names(b) }
+
+/// ops: seq <hex packet> <op> <op> ...   |  unc <hex> [ref_offset]  |  cmp <hex>  |  ren <hex> <hextarget> <hexsource> <0|1>
+pub fn replay(prop: &str, a: &[&str]) -> Result<(), String> {
+    match a.get(0).copied().unwrap_or("") {
+        "unc" => {
+            let p = unhex(a[1])?;
+            let m = match wire::parse_ref(&p) { Some(m) => m, None => return Ok(()) };
+            let want = encode(&decode(&p).unwrap());
+            let mut boundaries: Vec<usize> = vec![12]; boundaries.extend(m.recs.iter().map(|r| r.off)); boundaries.push(p.len());
+            // expected boundary map
+            let u = Compress::uncompress(&p).map_err(|e| format!("uncompress failed on an accepted packet: {}", e))?;
+            if u != want { return Err(format!("uncompress = {}, expected {}", hex(&u), hex(&want))); }
+            if wire::parse_ref(&u).is_none() { return Err("uncompressed packet is not accepted".into()); }
+            let u2 = Compress::uncompress(&u).map_err(|e| e.to_string())?;
+            if u2 != u { return Err("second decompression changes the packet".into()); }
+            let mu = wire::parse_ref(&u).unwrap();
+            let mut ub: Vec<usize> = vec![12]; ub.extend(mu.recs.iter().map(|r| r.off)); ub.push(u.len());
+            for (i, &b) in boundaries.iter().enumerate() {
+                let (_, nb) = Compress::uncompress_with_previous_offset(&p, b).map_err(|e| e.to_string())?;
+                if nb != ub[i] { return Err(format!("boundary {} of the input maps to {}, expected {}", b, nb, ub[i])); }
+            }
+            Ok(())
+        }
+        "cmp" => {
+            let p0 = unhex(a[1])?;
+            if wire::parse_ref(&p0).is_none() { return Ok(()); }
+            let p = encode(&decode(&p0).unwrap());           // C06 quantifies over accepted pointer-free packets
+            if wire::parse_ref(&p).is_none() { return Ok(()); }
+            let c = Compress::compress(&p).map_err(|e| format!("compress failed: {}", e))?;
+            if c.len() > p.len() { return Err(format!("compressed packet is longer ({} > {})", c.len(), p.len())); }
+            let mc = match decode(&c) { Some(m) => m, None => return Err(format!("compressed packet is not accepted: {}", hex(&c))) };
+            let mp = decode(&p).unwrap();
+            if !msg_eq(&mc, &mp) { return Err(format!("message changed by compression: {}", hex(&c))); }
+            if mc.q != mp.q { return Err("question name not byte-identical".into()); }
+            let u = Compress::uncompress(&c).map_err(|e| e.to_string())?;
+            if u.to_ascii_lowercase() != p.to_ascii_lowercase() && lower_names(&decode(&u).unwrap()) != lower_names(&mp) { return Err("decompressing the result does not give back the input".into()); }
+            Ok(())
+        }
+        "ren" => {
+            let p = unhex(a[1])?; let t = unhex(a[2])?; let s = unhex(a[3])?; let x = a[4] != "0";
+            let m0 = match decode(&p) { Some(m) => m, None => return Ok(()) };
+            let mut pp = DNSSector::new(p.clone()).unwrap().parse().map_err(|e| e.to_string())?;
+            let r = pp.rename_with_raw_names(&t, &s, x);
+            match (r, model_rename(&m0, &t, &s, x)) {
+                (Ok(()), Ok(mm)) => {
+                    let bytes = pp.packet.clone().ok_or("packet is None after rename")?;
+                    let got = decode(&bytes).ok_or_else(|| format!("renamed packet is not accepted: {}", hex(&bytes)))?;
+                    if !msg_eq(&got, &mm) { return Err(format!("renamed message differs from the specification: {}", hex(&bytes))); }
+                    coherent(&mut pp, true)
+                }
+                (Ok(()), Err(())) => Err("rename produced a packet although a rewritten name exceeds 255 bytes".into()),
+                (Err(e), Ok(_)) => Err(format!("rename failed although every rewritten name fits: {}", e)),
+                (Err(_), Err(())) => { // C10: a failed rename changes nothing
+                    let bytes = pp.packet.clone().ok_or("packet is None after a failed rename")?;
+                    if !msg_eq(&decode(&bytes).ok_or("bytes not accepted after a failed rename")?, &m0) { return Err("failed rename changed the message".into()); }
+                    coherent(&mut pp, true) }
+            }
+        }
+        "seq" => {
+            let p = unhex(a[1])?;
+            let mut model = match decode(&p) { Some(m) => m, None => return Ok(()) };
+            let mut pp = DNSSector::new(p.clone()).unwrap().parse().map_err(|e| e.to_string())?;
+            for os in &a[2..] {
+                let op = op_from_str(os)?;
+                let before = model.clone();
+                let out = apply(&mut pp, &model, &op, prop).map_err(|e| format!("{} at op {}", e, os))?;
+                model = out.model;
+                let bytes = pp.packet.clone().ok_or(format!("packet is None after {}", os))?;
+                let got = decode_struct(&bytes).ok_or_else(|| format!("bytes no longer decode after {} ({})", os, hex(&bytes)))?;
+                if out.failed && !msg_eq(&got, &before) { return Err(format!("failed operation {} changed the message", os)); }
+                if !msg_eq(&got, &model) { return Err(format!("after {} the message is {} but the specification says {}", os, hex(&encode(&got)), hex(&encode(&model)))); }
+                let policy_ok = model.q.is_some() && (model.hdr[2] & 0x80 != 0 || (model.secs[0].is_empty() && model.secs[1].is_empty()));
+                coherent(&mut pp, policy_ok).map_err(|e| format!("{} after {}", e, os))?;
+            }
+            Ok(())
+        }
+        _ => Err("usage: <prop> seq|unc|cmp|ren ...".into()),
+    }
+}
+
+// ---------------------------------------------------------------------------------------------- generators
+fn gen_raw_name(r: &mut Rng) -> Vec<u8> {
+    let mut v = vec![];
+    let nl = r.below(4) as usize;
+    for _ in 0..nl { let n = match r.below(12) { 0 => 63, 1 => 40, _ => 1 + r.below(6) as usize }; v.push(n as u8); for _ in 0..n { v.push(*r.pick(b"abcXYZ019-_")); } }
+    v.push(0);
+    v
+}
+fn distinct_ttls(p: &mut Vec<u8>) {
+    // make records distinguishable: TTL := running index (keeps the packet well-formed)
+    if let Some(m) = wire::parse_ref(p) { for (i, r) in m.recs.iter().enumerate() { if r.rtype != 41 { let o = r.name_end + 4; p[o] = 0; p[o + 1] = 0; p[o + 2] = (i >> 8) as u8; p[o + 3] = (i & 0xff) as u8 | 0x00; p[o + 1] = 1; } } }
+}
+fn text_rr(r: &mut Rng) -> String {
+    match r.below(5) {
+        0 => format!("ins{}.example 3600 IN A 10.0.{}.{}", r.below(9), r.below(255), r.below(255)),
+        1 => format!("ns.example 300 IN NS ns{}.Example.com", r.below(9)),
+        2 => format!("m.example 5 IN MX {} mail.example.com", r.below(100)),
+        3 => format!("z.example 7 IN SOA ns.z.example h.z.example (1 2 3 4 {})", r.below(9)),
+        _ => format!("t.example 9 IN TXT \"{}\"", "x".repeat(1 + r.below(300) as usize)),
+    }
+}
+
+pub fn gen(prop: &str, r: &mut Rng, _filter: &str) -> Vec<String> {
+    let c = r.chance(3, 4);
+    let mut p = wire::gen_valid(r, c);
+    if wire::parse_ref(&p).is_none() { return vec![]; }
+    match prop {
+        "c05" => vec![prop.into(), "unc".into(), hex(&p)],
+        "c06" => vec![prop.into(), "cmp".into(), hex(&p)],
+        "c07" => {
+            let m = wire::parse_ref(&p).unwrap();
+            // pick a source from the names present (or a random one), at a random label depth
+            let mut names: Vec<Vec<u8>> = vec![m.qname.clone()]; for rec in &m.recs { names.push(rec.name.clone()); for n in &rec.rdata_names { names.push(n.clone()); } }
+            let mut s = if r.chance(4, 5) { r.pick(&names).clone() } else { gen_raw_name(r) };
+            if r.chance(1, 2) { let mut i = 0; let hops = r.below(3); for _ in 0..hops { if s[i] != 0 && s[i + s[i] as usize + 1] != 0 { i += s[i] as usize + 1; } } s = s[i..].to_vec(); }
+            if r.chance(1, 3) { for b in s.iter_mut() { if b.is_ascii_alphabetic() && r.chance(1, 2) { *b ^= 0x20; } } }
+            let mut t = if r.chance(1, 5) { s.clone() } else { gen_raw_name(r) };
+            if r.chance(1, 8) { t = { let mut v = vec![]; for _ in 0..3 { v.push(63); v.extend(std::iter::repeat(b't').take(63)); } v.push(40); v.extend(std::iter::repeat(b'u').take(40)); v.push(0); v } }
+            if s.len() <= 1 || t.len() <= 1 { return vec![]; }
+            vec![prop.into(), "ren".into(), hex(&p), hex(&t), hex(&s), r.below(2).to_string()]
+        }
+        _ => {
+            distinct_ttls(&mut p);
+            let m = wire::parse_ref(&p).unwrap();
+            let cnt = |s: u8| m.recs.iter().filter(|x| x.section == s).count();
+            let nops = if prop == "c11" { 1 } else { 1 + r.below(4) as usize };
+            let mut ops = vec![];
+            for _ in 0..nops {
+                let s = 1 + r.below(3) as u8;
+                let k = r.below(cnt(s) as u64 + 1) as usize;
+                let op = if prop == "c11" { Op::WalkDelete(s, r.next() & 0xff) } else {
+                    match r.below(if prop == "c10" { 8 } else { 14 }) {
+                        0 => Op::SetName(if r.chance(1, 5) { 0 } else { s }, k, { let mut n = gen_raw_name(r); if prop == "c10" || r.chance(1, 6) { let i = r.below(n.len() as u64) as usize; n[i] = *r.pick(&[64u8, 0xc0, 200]); } n }),
+                        1 => Op::Delete(if r.chance(1, 8) { 0 } else { s }, k),
+                        2 => Op::Insert(if prop == "c10" && r.chance(1, 3) { 0 } else { s }, text_rr(r)),
+                        3 => Op::SetTtl(s, k, r.next() as u32),
+                        4 => Op::SetIp(s, k, if r.chance(1, 2) { r.bytes(4) } else { r.bytes(16) }),
+                        5 => Op::Uncompress(s, k),
+                        6 => Op::Recompute,
+                        7 => Op::Rename(gen_raw_name(r), m.qname.clone(), r.chance(1, 2)),
+                        8 => Op::SetFlags(r.next() as u32 | 0x8000),
+                        9 => Op::SetTid(r.next() as u16),
+                        10 => Op::SetRcode(r.next() as u8),
+                        11 => Op::SetOpcode(r.next() as u8),
+                        12 => Op::WalkDelete(s, r.next() & 0xff),
+                        _ => Op::SetName(s, k, gen_raw_name(r)),
+                    } };
+                ops.push(op_to_str(&op));
+            }
+            let mut v = vec![prop.to_string(), "seq".into(), hex(&p)];
+            v.extend(ops);
+            v
+        }
+    }
+}
